@@ -18,6 +18,15 @@ TODO:
 """
 
 
+def _split_lines(text):
+    # Like str.splitlines, but only a line feed ends a line: a form feed or a
+    # unicode line separator inside a source or want line stays in that line
+    lines = text.split('\n')
+    if lines and lines[-1] == '':
+        lines.pop()
+    return lines
+
+
 class DoctestPart:
     """
     The result of parsing that represents a "logical block" of code.
@@ -303,7 +312,7 @@ class DoctestPart:
             n_digits = math.log(max(1, endline), 10)
             n_digits = int(math.ceil(n_digits))
 
-        part_lines = src_text.splitlines()
+        part_lines = _split_lines(src_text)
         n_spaces = 0
 
         if linenos:
@@ -322,7 +331,7 @@ class DoctestPart:
         want_lines = []
         if want_text:
             want_fmt = ' ' * n_spaces + '{line}'
-            for line in want_text.splitlines():
+            for line in _split_lines(want_text):
                 if want:
                     want_lines.append(want_fmt.format(line=line))
 
